@@ -2,3 +2,4 @@ import Artela.Model.Base
 import Artela.Model.CallTree
 import Artela.Model.StateChanges
 import Artela.Props.C07
+import Artela.Props.C16
